@@ -47,6 +47,8 @@ where
             for (medoid, cluster_data) in std::mem::take(current_clusters).into_iter() {
                 // not enough data for clustering, simply propagate it to the next tier
                 if cluster_data.len() < K_PER_TIER {
+                    // NOTE: the top level data has no medoid yet: a single point is its own medoid
+                    let medoid = medoid.or_else(|| cluster_data.first().cloned());
                     current_tier_clusters.insert(medoid.clone().expect("should be set"), cluster_data.clone());
                     next_tier_clusters.push((medoid, cluster_data));
                     continue;
